@@ -109,6 +109,7 @@ def all_v_files():
     res = []
     for root, dirs, files in os.walk(COQ):
         if os.path.basename(root) == 'gen':
+            dirs[:] = []        # never descend into the per-run directories gen/r<pid>/
             continue
         for f in files:
             if f.endswith('.v'):
@@ -287,7 +288,7 @@ class Impl:
         e['PYTHONPATH'] = self.dir + os.pathsep + VERIF
         e['PYTHONHASHSEED'] = str(hashseed)
         e['PYTHONDONTWRITEBYTECODE'] = '1'
-        e['XDG_CACHE_HOME'] = xdg or os.path.join(CACHE, 'xdg', self.sha)
+        e['XDG_CACHE_HOME'] = xdg or os.path.join(CACHE, 'xdg', self.sha, 'py-' + self.pysha())
         e['MPLBACKEND'] = 'Agg'
         e['PYIGA_VERIF'] = '1'
         e['VERIF_IMPL_DIR'] = self.dir
@@ -295,6 +296,17 @@ class Impl:
             e.update(extra)
         os.makedirs(e['XDG_CACHE_HOME'], exist_ok=True)
         return e
+
+    def pysha(self):
+        """Hash of the Python sources that determine generated assembler code and how it is built:
+        a module compiled by a different code generator / compile.py must never be reused."""
+        h = hashlib.sha256()
+        for rel in ('pyiga/vform.py', 'pyiga/compile.py', 'pyiga/codegen/cython.py', 'pyiga/codegen/__init__.py'):
+            pth = os.path.join(self.dir, rel)
+            if os.path.exists(pth):
+                h.update(rel.encode())
+                h.update(open(pth, 'rb').read())
+        return h.hexdigest()[:12]
 
     def run(self, script, payload, timeout=1200, extra_env=None, hashseed='0', xdg=None):
         """Run a driver script (path relative to /verif) in the implementation's
